@@ -501,6 +501,26 @@ class _Gen:
                 inst.append([k, self.val(allow_fn=True)])
         return {"classes": classes, "inst": inst}
 
+    def prior(self, shape):
+        """another object whose classes will get the SAME module and qualified names as those of `shape` (class factory, reused
+        type() name, re-executed class statement) but different exposure; registered and asked for its metadata first"""
+        rng = self.rng
+        if rng.random() < 0.6:
+            p = copy.deepcopy(shape)
+            for c in p["classes"]:
+                c["expose"] = rng.random() < 0.5
+                for _, m in c["members"]:
+                    for f in member_fns(m):
+                        f["expose"] = rng.random() < 0.5 and not spec_private(f["name"])
+                    if m["k"] == "prop":
+                        prim = m["g"] or m["s"] or m["d"]
+                        m["expose"] = rng.random() < 0.4 and prim is not None and not spec_private(prim["name"])
+        else:
+            fid = self.fid
+            p = self.shape()
+            self.fid = fid
+        return {"shape": p, "keep": rng.random() < 0.5}
+
     def history(self, shape, names):
         """run-time changes after the metadata was fetched (the member cache is filled and never reset), each followed by
         requests for the changed name in every kind; aimed at names that are served at that moment"""
@@ -781,9 +801,9 @@ def _load_corpus():
     return cases
 
 
-def run_case(real, codec, shape, reqs):
-    """real code: build, metadata, every request -> (build_err, md, [(reply, eff)])"""
-    err = real.build(shape)
+def run_case(real, codec, shape, reqs, prior=None):
+    """real code: (prior object,) build, metadata, every request -> (build_err, md, [(reply, eff)])"""
+    err = real.build(shape, prior)
     if err:
         return err, None, []
     md = real.metadata()
@@ -795,10 +815,17 @@ def _shape_keys(shape):
     return {k for c in shape["classes"] for k, _ in c["members"]} | {k for k, _ in shape["inst"]}
 
 
-def _check_case(ctx, real, codec, shape, reqs, keys, tag, events=()):
+def _check_case(ctx, real, codec, shape, reqs, keys, tag, events=(), prior=None):
     """run one shape (and its history) on the real code, apply the property oracle (step D); returns the canonical real line"""
-    build_err, md, results = run_case(real, codec, shape, reqs)
+    build_err, md, results = run_case(real, codec, shape, reqs, prior)
     ctx.count("build:" + (build_err or "ok"))
+    if prior:
+        ctx.count("prior-same-named-class:%s" % real.prior_state)
+
+    def with_prior(case):
+        if prior:
+            case["prior"] = prior
+        return case
     if build_err:
         return real_line(build_err, None, []), []
     skeys = _shape_keys(shape)
@@ -821,7 +848,7 @@ def _check_case(ctx, real, codec, shape, reqs, keys, tag, events=()):
             if steps:
                 desc += " after %d run-time change(s) of the object" % len(steps)
             if sig in ctx.c02_seen:
-                later.append((sig, desc + " [%s]" % tag, {"shape": shape, "steps": list(steps), "req": r}))
+                later.append((sig, desc + " [%s]" % tag, with_prior({"shape": shape, "steps": list(steps), "req": r})))
             else:
                 ctx.c02_seen.add(sig)
                 to_shrink.append((sig, desc, list(steps), r))
@@ -845,7 +872,9 @@ def _check_case(ctx, real, codec, shape, reqs, keys, tag, events=()):
             s[kind] = reply == "result"
         full[n] = s
     for sig, desc in judge_metadata(shape, md, full):
-        later.append((sig, desc + " [%s]" % tag, {"shape": shape, "req": None}))
+        if prior:
+            desc += " (an object of a different class with the same module and qualified name was registered and asked for its metadata before)"
+        later.append((sig, desc + " [%s]" % tag, with_prior({"shape": shape, "req": None})))
     # ---- the history: run-time changes (metadata cache filled above, never reset), each request judged against the state of its moment
     cur, steps = shape, []
     results = list(results)
@@ -865,8 +894,8 @@ def _check_case(ctx, real, codec, shape, reqs, keys, tag, events=()):
                 steps = steps + [ev]
     line = real_line(None, md, results)
     for sig, desc, st, r in to_shrink:      # first failure of each class in a run: minimise shape and history (re-running the real code)
-        small, st2 = _shrink(real, shape, st, r, sig)
-        case = {"shape": small, "req": r}
+        small, st2 = _shrink(real, shape, st, r, sig, prior)
+        case = with_prior({"shape": small, "req": r})
         if st2:
             case["steps"] = st2
         ctx.fail(sig, desc + " [%s, minimised]" % tag, case)
@@ -875,9 +904,9 @@ def _check_case(ctx, real, codec, shape, reqs, keys, tag, events=()):
     return line, flags
 
 
-def _replay_case(real, shape, steps, req):
-    """build, fetch the metadata (fills the member cache), apply the steps, send the request; -> (state description, reply, effects) or None"""
-    if real.build(shape):
+def _replay_case(real, shape, steps, req, prior=None):
+    """(prior object,) build, fetch the metadata (fills the member cache), apply the steps, send the request; -> (state description, reply, effects) or None"""
+    if real.build(shape, prior):
         return None
     real.metadata()
     cur = shape
@@ -888,10 +917,10 @@ def _replay_case(real, shape, steps, req):
     return cur, reply, eff
 
 
-def _shrink(real, shape, steps, req, sig):
+def _shrink(real, shape, steps, req, sig, prior=None):
     """greedy removal of steps / members / instance attributes / empty classes while the real code still fails the same way"""
     def fails(sh, st):
-        out = _replay_case(real, sh, st, req)
+        out = _replay_case(real, sh, st, req, prior)
         return bool(out) and any(s == sig for s, _ in judge(out[0], req, out[1], out[2]))
     cur, cst = copy.deepcopy(shape), list(steps)
     if not fails(cur, cst):
@@ -994,18 +1023,19 @@ def _run(ctx, name, nshapes, do_model, extra_shapes=()):
         if name == "corr":
             for c in _load_corpus():
                 keys = sorted(_shape_keys(c["shape"]))
-                cases.append((c["shape"], c["reqs"], keys, "corpus/" + c["corpus"], c.get("events", [])))
+                cases.append((c["shape"], c["reqs"], keys, "corpus/" + c["corpus"], c.get("events", []), c.get("prior")))
         for i, shape in enumerate(extra_shapes):
             keys, reqs = gen_requests(rng, shape, reserved, False)
             gen.fid = 500
-            cases.append((shape, reqs, keys, "%s-seed#%d" % (name, i), gen.history(shape, keys)))
+            cases.append((shape, reqs, keys, "%s-seed#%d" % (name, i), gen.history(shape, keys), None))
         for i in range(nshapes):
             shape = gen.shape()
             keys, reqs = gen_requests(rng, shape, reserved, thorough and i % 20 == 0)
-            cases.append((shape, reqs, keys, "%s#%d" % (name, i), gen.history(shape, keys)))
+            events = gen.history(shape, keys)
+            cases.append((shape, reqs, keys, "%s#%d" % (name, i), events, gen.prior(shape) if rng.random() < 0.35 else None))
         lines, reals, flagss = [], [], []
-        for shape, reqs, keys, tag, events in cases:
-            line, flags = _check_case(ctx, real, codec, shape, reqs, keys, tag, events)
+        for shape, reqs, keys, tag, events, prior in cases:
+            line, flags = _check_case(ctx, real, codec, shape, reqs, keys, tag, events, prior)
             reals.append(line)
             flagss.append(flags)
             if do_model:
@@ -1013,7 +1043,7 @@ def _run(ctx, name, nshapes, do_model, extra_shapes=()):
         if do_model:
             outs = common.run_driver("drv_c02", lines)
             ctx.corr_cases += sum(len(c[1]) + len(c[4]) for c in cases) + len(cases)
-            for (shape, reqs, keys, tag, events), real_l, flags, model_l in zip(cases, reals, flagss, outs):
+            for (shape, reqs, keys, tag, events, prior), real_l, flags, model_l in zip(cases, reals, flagss, outs):
                 model_l = _sort_model_line(model_l)
                 r, m = _apply_coarse(real_l, flags), _apply_coarse(model_l, flags)
                 if r == m:
@@ -1021,7 +1051,7 @@ def _run(ctx, name, nshapes, do_model, extra_shapes=()):
                 rp, mp = r.split(" | "), m.split(" | ")
                 if rp[0] != mp[0]:
                     suite = "build" if (rp[0].startswith("builderr") or mp[0].startswith("builderr")) else "metadata"
-                    ctx.mismatch(suite, {"shape": shape, "tag": tag}, rp[0], mp[0])
+                    ctx.mismatch(suite, {"shape": shape, "tag": tag, "prior": prior}, rp[0], mp[0])
                 items = [{"t": "q", "req": q} for q in reqs] + list(events)
                 for i, (a, b) in enumerate(zip(rp[1:], mp[1:])):
                     if a != b:
@@ -1068,8 +1098,12 @@ def replay(ctx, case):
     from props import c02_real
     real = c02_real.Real()
     try:
-        shape, req, steps = c["shape"], c.get("req"), c.get("steps", [])
-        err = real.build(shape)
+        shape, req, steps, prior = c["shape"], c.get("req"), c.get("steps", []), c.get("prior")
+        err = real.build(shape, prior)
+        if prior:
+            print("registered first, an object of classes with the same module/qualified names (%s): %s" % (real.prior_state, json.dumps(prior["shape"])))
+            if real.prior_state in ("kept", "gone"):
+                print("  its advertised metadata:", real.prior_md)
         print("shape:", json.dumps(shape))
         if err:
             print("the decorators refused the shape:", err)
